@@ -42,6 +42,64 @@ Section Variants.
     rewrite run_session_v_none. destruct (run_session md5 orm ss f ops) as [o f']. rewrite IH. reflexivity.
   Qed.
 
+  (* ---------- every variant: no row, table or column is ever lost ---------- *)
+
+  Lemma set_revision_any_keeps (w : variant) (rid : string) (c : conn) :
+    d_schema (cur (fst (set_revision_v w rid c))) = d_schema (cur c)
+    /\ d_data (cur (fst (set_revision_v w rid c))) = d_data (cur c)
+    /\ d_data (disk (fst (set_revision_v w rid c))) = d_data (disk c).
+  Proof.
+    unfold set_revision_v. destruct (d_rev (cur c)); [| destruct (v_insert w) |]; simpl; auto.
+    unfold init_rev_table, ddl, cur. destruct (work c); simpl; auto.
+  Qed.
+
+  Lemma migrate_any_shape (w : variant) (ss : list step) (c c1 : conn) (r : option string) (tr1 : list ev) :
+    get_revision c = (c1, r, tr1) ->
+    (get_steps ss r = [] /\ migrate_v md5 w ss c = (c1, tr1))
+    \/ (exists s0 rest, get_steps ss r = s0 :: rest /\
+         let c3 := fst (set_revision_v w (rev_id ss) (fst (run_stmts (List.concat (s0 :: rest)) c1))) in
+         fst (migrate_v md5 w ss c) = if v_commit w then commit c3 else c3).
+  Proof.
+    intro Hg. unfold migrate_v, run_steps. rewrite Hg.
+    destruct (get_steps ss r) as [|s0 rest]; [left; auto|]. right. exists s0, rest. split; [reflexivity|].
+    destruct (run_stmts (List.concat (s0 :: rest)) c1) as [c2 tr2]. simpl.
+    destruct (set_revision_v w (rev_id ss) c2) as [c3 tr3]. simpl. reflexivity.
+  Qed.
+
+  (* the session's view keeps every row; what is on disk keeps every row too *)
+  Lemma migrate_any_keeps_data (w : variant) (ss : list step) (c : conn) :
+    d_data (cur (fst (migrate_v md5 w ss c))) = d_data (cur c)
+    /\ (work c = None -> d_data (disk (fst (migrate_v md5 w ss c))) = d_data (disk c)).
+  Proof.
+    pose proof (get_revision_keeps c) as [_ [G1 G2]].
+    destruct (get_revision c) as [[c1 r] tr1] eqn:Hg. simpl in G1, G2.
+    destruct (migrate_any_shape w ss c c1 r tr1 Hg) as [[_ M]|[s0 [rest [_ M]]]].
+    - rewrite M. simpl. split; [exact G1 | intros _; exact G2].
+    - cbv zeta in M. rewrite M. remember (List.concat (s0 :: rest)) as l.
+      pose proof (run_stmts_cur l c1) as [_ Hc]. pose proof (run_stmts_disk l c1) as [_ Hd].
+      destruct (set_revision_any_keeps w (rev_id ss) (fst (run_stmts l c1))) as [_ [K1 K2]].
+      assert (CC : forall x, cur (commit x) = cur x) by reflexivity.
+      assert (DC : forall x, disk (commit x) = cur x) by reflexivity.
+      destruct (v_commit w).
+      + rewrite CC, DC. split; [congruence|]. intro Hw. rewrite K1, Hc, G1. apply f_equal. apply cur_autocommit. exact Hw.
+      + split; [congruence|]. intros _. congruence.
+  Qed.
+
+  Lemma migrate_any_keeps_tables (w : variant) (ss : list step) (c : conn) (t : string) (cols : list string) :
+    lookup t (d_schema (cur c)) = Some cols ->
+    exists cols', lookup t (d_schema (cur (fst (migrate_v md5 w ss c)))) = Some cols' /\ List.length cols <= List.length cols'.
+  Proof.
+    intro Hl. pose proof (get_revision_keeps c) as [G _].
+    destruct (get_revision c) as [[c1 r] tr1] eqn:Hg. simpl in G.
+    destruct (migrate_any_shape w ss c c1 r tr1 Hg) as [[_ M]|[s0 [rest [_ M]]]].
+    - rewrite M. simpl. rewrite G. exists cols. auto.
+    - cbv zeta in M. rewrite M. remember (List.concat (s0 :: rest)) as l. rewrite <- G in Hl.
+      destruct (run_stmts_keeps_tables l c1 t cols Hl) as [cols' [H1 H2]].
+      destruct (set_revision_any_keeps w (rev_id ss) (fst (run_stmts l c1))) as [K _].
+      assert (CC : forall x, cur (commit x) = cur x) by reflexivity.
+      exists cols'. split; [|exact H2]. destruct (v_commit w); [rewrite CC|]; rewrite K; exact H1.
+  Qed.
+
   (* ---------- a variant that commits and inserts ---------- *)
 
   Variable v : variant.
@@ -162,8 +220,7 @@ Section Variants.
     intros Hi Hr Hs. unfold run_session_v, open_database_v.
     rewrite (migrate_v_current ss (mkconn d None) Hi Hr Hs). simpl.
     split; [reflexivity|]. split; [reflexivity|].
-    pose proof (ops_cur_sr ops (mkconn d None)) as H1.
-    pose proof (ops_agree ops (mkconn d None) eq_refl) as H2. simpl in H1, H2.
+    destruct (ops_agree2 ops (mkconn d None) eq_refl) as [H2 H1]. simpl in H1, H2.
     split; [exact H1|]. split; [exact H2|]. eexists. split; [reflexivity | exact H2].
   Qed.
 
